@@ -64,7 +64,9 @@ let handle line =
       let bals = journal_balances ord None xs in
       let rows = List.map (fun (a, r) ->
           match r with
-          | Ok b -> Printf.sprintf "%s B %s %s" id (string_of_str a)
+          | Ok v ->
+            let b = (match v with VAmt a -> [a] | VBal b -> b | _ -> []) in
+            Printf.sprintf "%s B %s %s" id (string_of_str a)
                       (String.concat ";" (List.sort compare (List.map show_amt (List.filter (fun x -> h_qnum x.aq <> Z0) b))))
           | Err e -> Printf.sprintf "%s B %s ERR %s" id (string_of_str a) (err_name e)) bals in
       let n = List.length (accepted_posts (run_journal ord None [] xs)) in
